@@ -1,8 +1,9 @@
 CONSTANTS
   MaxUI = 3
   Kinds = {"finite", "endless"}
+  ShowBumpsVersion = TRUE
   TemplateHasQ = FALSE
 SPECIFICATION Spec
-INVARIANTS TypeOK OneAlive ShownIsStarted Convergence ExitClean
+INVARIANTS TypeOK OneAlive ShownIsStarted Convergence ShowFixed ExitClean
 PROPERTIES Liveness NoSurvivor
 CHECK_DEADLOCK FALSE
